@@ -254,6 +254,19 @@ void MEDDLY::inter_mt::_compute(int L, unsigned in,
         }
     }
 
+    if (arg1F->isTerminalNode(A) && arg2F->isTerminalNode(B)) {
+        // TRUE and TRUE, below level L, and neither forest is
+        // fully reduced: the result is whichever pattern is an identity.
+        edge_value dummy;
+        dummy.set();
+        if (arg1F->isIdentityReduced()) {
+            copy_arg1res->compute(L, in, dummy, A, dummy, C);
+        } else {
+            copy_arg2res->compute(L, in, dummy, B, dummy, C);
+        }
+        return;
+    }
+
     if ((A == B) && (arg1F==arg2F)) {
         // A and A = A
         edge_value dummy;
